@@ -16,6 +16,11 @@
        subscript chain from the lambda parameter).  Residual of F21, reported: [{'a': e.x}.a[0](1)] and [(1).x[0](2)]
        still raise AttributeError - the call is taken for a parameterized property on a typed object, and that
        behaviour is pinned for user classes by test_index_callback_bad_prop.
+     - an immediately called lambda [(lambda x, ...: body)(a, ...)] that binds each parameter to one positional
+       argument is outside the grammar: since F45 the follower follows its body (the parameters typed by the arguments),
+       so the statement would need the body to be in the grammar under another environment; such calls are covered by
+       the correspondence only (they are in the corpus and the generated cases).  Any other call of a lambda is in.
+   [bool_shape]: comparisons, and/or and [not] (F43: [not x] is a boolean whatever [x] is).
    Builtin classes (str, int, ...) are not in a class table: their methods called on constants are outside the model. *)
 From FA.Base Require Import PyAst Value.
 From FA.Gen Require Import TablesTypes.
